@@ -640,9 +640,9 @@ pub fn run(run: &Run) {
     let mut reports = Vec::new();
     let (mut ts, mut tt, mut ti) = (0u64, 0u64, 0u64);
     for (i, (name, prefix)) in prefixes().into_iter().enumerate() {
-        let extended = thorough && i % 2 == 1;
-        let depth = if thorough { if extended { 10 } else { 12 } } else { 8 };
-        let g = G { c: Counters::new(&NAMES), max_outstanding: if thorough { 4 } else { 3 }, extended };
+        let extended = thorough || i % 2 == 1;
+        let depth = if thorough { 15 } else if extended { 10 } else { 12 };
+        let g = G { c: Counters::new(&NAMES), max_outstanding: if thorough { 5 } else { 4 }, extended };
         let init = match drive(&g, fresh_state(), &prefix) {
             Ok(s) => s,
             Err((sig, d)) => {
@@ -661,7 +661,7 @@ pub fn run(run: &Run) {
             ops.extend(vv.path);
             run.violation(&vv.signature, &vv.detail, json!({"plan": name, "ops": ops}));
         }
-        let nm = BfsOptions { max_depth: Some(if thorough { 3 } else { 2 }), merge: false, ..Default::default() };
+        let nm = BfsOptions { max_depth: Some(if thorough { 4 } else { 3 }), merge: false, ..Default::default() };
         let (nstats, nviols) = bfs(&g, vec![init], &nm);
         ti += nstats.impl_steps;
         for vv in nviols {
@@ -681,7 +681,7 @@ pub fn run(run: &Run) {
     run.set("traces_validated_against_impl", json!(ti));
     run.set("plans", json!(reports));
     run.set("exhaustive", json!(false));
-    run.set("bound", json!("all action sequences up to the stated depth from each start state; <= 2 (quick) / 3 (thorough) outstanding transactions"));
+    run.set("bound", json!("all action sequences up to the stated depth from each start state; <= 4 (quick) / 5 (thorough) outstanding transactions"));
     run.set("explanation", json!("every transition calls the real ClientSession (a public request/stop/publish call, or handle_input with a library-encoded server message) and compares emitted commands, events, Ok/Err and the logic fingerprint with the reference workflow model"));
     run.sample(json!({"ops": ["RequestConnection", "Result{1}", "RequestPlayback", "Result{2, stream 5}", "StopPlayback", "Meta{msid 5}"], "expect": "deleteStream(5) on stop, then no metadata event"}));
     run.assume("server messages are encoded and client output decoded with the library's own codec; nodes are keyed by the session's logic fingerprint + model state");
